@@ -886,7 +886,7 @@ class SourceSetGreater(Contract):
     equally many and the sorted level numbers are lexicographically greater (so the smallest set - fewest, highest-priority sources -
     sorts first and is the one split() takes)"""
     path, qualname, props = VPL, 'VariantSourceSet.__gt__', ('C18',)
-    assumptions = ('assumed: to_int() returns the sorted level numbers of the set (levels_map lookup and list.sort not under contract)',)
+    assumptions = ('to_int() returns the sorted level numbers of the set: its own contract (ToInt, contracts/c18c.py), used here as an uninterpreted result',)
 
     def setup(self, I):
         e = I.e
